@@ -1,1 +1,1 @@
-import MammothModel
+import Proofs.HtmlText
